@@ -8,6 +8,7 @@ ROOT="$(cd "$(dirname "$0")/.." && pwd)"
 MT=/tmp/mt-repo
 [ -d "$MT" ] || git -C /repo worktree add --detach "$MT" HEAD -q
 git -C "$MT" checkout -q -- . && git -C "$MT" clean -fdq
+git -C "$MT" checkout -q --detach "$(git -C /repo rev-parse HEAD)"
 # hook files of /repo (untracked or committed) are needed by the harness
 (cd /repo && git ls-files -o --exclude-standard | grep 'zz_verif_' | while read f; do mkdir -p "$MT/$(dirname $f)"; cp "$f" "$MT/$f"; done)
 git -C "$MT" apply "$PATCH" || { echo "patch does not apply"; exit 2; }
